@@ -61,6 +61,12 @@ def run(tier, rng, C):
     s2 = None
     for r in range(reps):
         sub = [(l, lab) for (l, lab) in rnd] if r == 0 else [(l, lab) for (l, lab) in rnd if 32 <= int(l.split(" ")[1]) <= 96]
+        # all calls of one repetition run on one thread of one process: ascending, then descending, then random
+        # order of the byte counts (a scratch buffer or cached length kept between calls shows up in the latter two)
+        if r == 1:
+            sub.reverse()
+        elif r >= 2:
+            rng.shuffle(sub)
         v, st = C.differential("C04", sub, monitor=monitor, canon=canon, nontrivial=lambda l, o: o.startswith("ok"), shrinkable=False)
         v2 += v
         s2 = st if s2 is None else C.merge_stats(s2, st)
@@ -68,7 +74,7 @@ def run(tier, rng, C):
     stats["samples"] = stats["samples"][:8]
     stats["rule"] = ("both constructors x verifier byte lengths 0..=200 exhaustively (+ non-ASCII strings whose byte length, not character count, is at the limits) "
                      "+ random legal verifiers (unreserved alphabet 70 %, arbitrary/non-ASCII 30 %); byte counts 0..=200, 255, 256, 65535, 65536, u32::MAX for the random constructor, "
-                     "legal counts drawn repeatedly; every case goes through authorize URL and code exchange and reports what a server would read; non-trivial = a challenge was produced")
+                     "legal counts drawn repeatedly in ascending, descending and random call order on one thread; every case goes through authorize URL and code exchange and reports what a server would read; non-trivial = a challenge was produced")
     stats["exhaustive"] = False
     return v1 + v2, stats
 
